@@ -30,7 +30,7 @@ package netpoll
 //@ func (*listener).parseFD
 //@   property C15
 //@   requires ln.ln != nil
-//@   ensures err == nil ==> ln.file != nil && lnok(ln) && !old(fdopen[ln.fd])
+//@   ensures err == nil ==> ln.file != nil && lnok(ln) && !old(fdopen)[ln.fd]
 //@   ensures err != nil ==> forall x int :: fdopen[x] == old(fdopen[x])
 //@   ensures forall x int :: x != ln.fd ==> fdopen[x] == old(fdopen[x])
 //@   modifies ln.file, ln.fd, fdopen
@@ -39,5 +39,7 @@ package netpoll
 //@   property C15
 //@   requires l != nil
 //@   results nl err
-//@   ensures err != nil ==> forall x int :: fdopen[x] == old(fdopen[x])
+//@   note when SetNonblock fails the listener is returned together with the error: the duplicate descriptor is still owned by it
+//@   ensures nl == nil ==> err != nil && forall x int :: fdopen[x] == old(fdopen[x])
+//@   ensures typeis(nl, *listener) && !typeis(l, *listener) ==> lnok(as(nl, *listener)) && as(nl, *listener).file != nil
 //@   modifies fdopen, closecnt
